@@ -10,7 +10,8 @@ source, and an option grid (order incl. combinations and wildcards, groups, max 
       partition (every sequence in exactly one database, unchanged), entries preserved as a multiset,
       database = best source set (cases without wildcards), entries ordered by priority, summary totals add
       up, summary agrees with the split sizes, decode(dict, encoded) = original;
-Finding recognised by signature: C18-wildcard-expansion (see docs/C18.md).
+Finding recognised by signature: C18-summary-exclusive-row (see docs/C18.md). The two former findings (wildcard expansion, summary last-GVF-wins) are fixed in /repo
+and kept as corpus regressions (see docs/C18.md).
 """
 import json, os, glob, copy, itertools
 from harness.lib import oracle as O, impl as I, rules as R, gen_reference as G, gen_headers as H
@@ -65,7 +66,11 @@ def gen_case(rng, world, stream):
                             kinds=['base', 'base', 'base', 'base_orf', 'circ', 'fusion'])
         files['variant'].append(dict(seq=s, entries=ents))
         entries_all += ents
-        if files['novel'] is not None and rng.random() < 0.4:
+        if files['novel'] is not None and rng.random() < 0.25:
+            # the same sequence in a later FASTA with an entry textually related to one already held
+            ents2 = [H.near_duplicate(rng, rng.choice(ents))]
+            files['novel'].append(dict(seq=s, entries=ents2)); entries_all += ents2
+        elif files['novel'] is not None and rng.random() < 0.4:
             ents2 = H.gen_header(rng, txs, n=rng.choice([1, 1, 2]), kinds=['novel'])
             files['novel'].append(dict(seq=s, entries=ents2)); entries_all += ents2
         if files['alt'] is not None and rng.random() < 0.4:
@@ -80,6 +85,14 @@ def gen_case(rng, world, stream):
                 seqs.append(s)
                 ents = H.gen_header(rng, txs, n=1, kinds=['novel' if key == 'novel' else 'alt'])
                 files[key].append(dict(seq=s, entries=ents)); entries_all += ents
+    if stream == 'wild_all':
+        # only SNV / alt-translation / ORF entries: after grouping there are 2-3 known sources in all
+        files = {'variant': [], 'novel': None, 'alt': None}
+        entries_all = []
+        for sq in seqs:
+            ents = H.gen_header(rng, txs, kinds=['base', 'base_orf', 'base_orf', 'alt', 'novel'], var_kinds=['SNV'],
+                                allow_alt=True)
+            files['variant'].append(dict(seq=sq, entries=ents)); entries_all += ents
     # GVF source assignment
     names = {'snv': rng.choice(['gSNP', 'sSNV']), 'indel': rng.choice(['gINDEL', 'sINDEL']), 'res': 'RNAEdit',
              'splice': 'rMATS', 'fusion': 'Fusion', 'circ': 'circRNA'}
@@ -116,6 +129,15 @@ def gen_case(rng, world, stream):
             group[m] = 'Grp'
     if rng.random() < 0.15:
         group[rng.choice(INTERNAL)] = rng.choice(['Grp', 'Alt'])
+    if stream == 'wild_all':
+        group = {}
+        alt = rng.choice(['Alt', 'Alt', 'NovelORF'])
+        for m in INTERNAL:
+            if rng.random() < 0.8:
+                group[m] = alt
+        if rng.random() < 0.7:
+            for sname in srcs:
+                group[sname] = 'Variant'
     c['group'] = group
     eff = []
     for s in srcs + INTERNAL:
@@ -131,6 +153,10 @@ def gen_case(rng, world, stream):
         if rng.random() < 0.35 and len(eff) >= 2:
             a, b = rng.sample(eff, 2)
             order.insert(rng.randint(0, len(order)), a + '-' + b)
+        if stream == 'wild_all' and eff:
+            w = rng.choice(['+', '*', '*'])
+            order = [x for x in order if rng.random() < 0.5]
+            order.insert(rng.randint(0, len(order)), rng.choice(eff) + '-' + w)
         if stream == 'wild' and eff:
             w = rng.choice(['+', '*'])
             a = rng.choice(eff)
@@ -334,6 +360,28 @@ def dup_variant(c):
                 return True
     return False
 
+EXCLUSIVE_PARSERS = {'parseSTARFusion', 'parseFusionCatcher', 'parseArriba', 'parseCIRCexplorer', 'parseRMATS'}
+
+def exclusive_row(c, names):
+    """PeptidePoolSummarizer.contains_exclusive_sources for a row: two of its (group) names have only
+    mutually exclusive parsers (internal sources inside a group are ignored by the code)"""
+    rev = {}
+    for k, v in c['group'].items():
+        rev.setdefault(v, []).append(k)
+    src_parser = {g['source']: g['parser'] for g in c['gvfs']}
+    def parsers(s):
+        return {src_parser[m] for m in rev.get(s, [s]) if m not in INTERNAL and m in src_parser}
+    for a in names:
+        pa = parsers(a)
+        if not pa:
+            continue
+        for b in names:
+            pb = parsers(b)
+            if pb and all(x in EXCLUSIVE_PARSERS for x in pa) and all(y in EXCLUSIVE_PARSERS for y in pb) \
+                    and all(x != y for x in pa for y in pb):
+                return True
+    return False
+
 def has_wild(c):
     return bool(c['order']) and any(('+' in v.split('-') or '*' in v.split('-')) for v in c['order'])
 
@@ -402,7 +450,7 @@ def check_split_statement(c, a):
                 best = min([spec_wild(lv, S) for S in srcs], key=lambda S: rank(lv, S))
                 exp = expected_key(c, lv, best)
                 if key != exp:
-                    probs.append(('C18-wildcard-expansion' if has_wild(c) else None, 'peptide %s is in database %s, the best source set %s requires %s' % (s, key, sorted(best), exp)))
+                    probs.append((None, 'peptide %s is in database %s, the best source set %s requires %s' % (s, key, sorted(best), exp)))
     return probs
 
 # ------------------------------------------------------------------ driver
@@ -412,13 +460,13 @@ def build_cases(ctx):
     worlds = [gen_world(rng) for _ in range(32 if ctx.quick else 200)]
     cases = []
     for i in range(n):
-        st = ['main', 'main', 'main', 'wild', 'main', 'wild', 'orf_first', 'malformed'][i % 8]
+        st = ['main', 'main', 'wild_all', 'wild', 'main', 'wild', 'orf_first', 'malformed', 'main', 'wild_all'][i % 10]
         cases.append(gen_case(rng, rng.choice(worlds), st))
     # merge / encode
     for i in range(400 if ctx.quick else 5000):
         w = rng.choice(worlds)
         txs = H.world_txs(w)
-        files = []
+        files, held = [], {}
         pool = [R.gen_protein(rng, 'trypsin', rng.randint(6, 20)) for _ in range(rng.randint(2, 8))]
         for _ in range(rng.randint(1, 4)):
             recs, used = [], set()
@@ -427,7 +475,14 @@ def build_cases(ctx):
                 if s in used and rng.random() < 0.8:
                     continue
                 used.add(s)
-                recs.append([' '.join(e['text'] for e in H.gen_header(rng, txs, orf_order='emitted')), s])
+                ents = H.gen_header(rng, txs, orf_order='emitted')
+                prev = held.get(s)
+                if prev and rng.random() < 0.5:
+                    # an entry textually related to one an earlier file holds for the same sequence
+                    ents = [H.near_duplicate(rng, rng.choice(prev))] + ents[:rng.randint(0, 1)]
+                held.setdefault(s, [])
+                held[s] += ents
+                recs.append([' '.join(e['text'] for e in ents), s])
             files.append(recs)
         cases.append(dict(kind='merge', stream='merge', files=files))
     for i in range(400 if ctx.quick else 5000):
@@ -577,11 +632,19 @@ def evaluate(ctx, cases):
                     e[k] = e.get(k, 0) + 1
                 n_pep = len(pool_seqs)
                 tot = sum(v[0] for v in table.values())
+                # signature of C18-summary-exclusive-row: every counted key that has no row is one that
+                # contains_exclusive_sources() rejects, and the total is short by exactly those peptides
+                missing = [n for n in exp if n not in table]
+                excl = bool(missing) and all(exclusive_row(c, n.split('-')) for n in missing)
+                short = sum(exp[n]['total'] for n in missing)
                 if tot != n_pep:
-                    add(c, None, 'C18 summarize: n_total column adds up to %d, the pool has %d peptides (rows %s, expected keys %s)' % (
+                    add(c, 'C18-summary-exclusive-row' if (excl and tot + short == n_pep) else None,
+                        'C18 summarize: n_total column adds up to %d, the pool has %d peptides (rows %s, expected keys %s)' % (
                         tot, n_pep, {k: v[0] for k, v in table.items() if v[0]}, {k: v['total'] for k, v in exp.items()}), {'table': sm})
-                else:
+                if tot == n_pep or (excl and tot + short == n_pep):
                     for name, e in exp.items():
+                        if excl and name in missing:
+                            continue
                         row = table.get(name)
                         if row is None or row[0] != e['total'] or any(row[1 + k] != e.get(k, 0) for k in range(len(row) - 1)):
                             add(c, None, 'C18 summarize: row %s is %s, expected %s' % (name, row, e), {'table': sm})
@@ -596,8 +659,12 @@ def evaluate(ctx, cases):
                     if all(not k.endswith('additional') and k != 'Remaining' for k in sizes):
                         st['match_checked'] += 1
                         nz = {k: v[0] for k, v in table.items() if v[0]}
+                        nz2 = dict(nz)
+                        if excl:
+                            for n in missing:
+                                nz2[n] = exp[n]['total']
                         if nz != sizes:
-                            add(c, 'C18-summary-last-gvf-wins' if dup_variant(c) else None, 'C18: summary totals %s differ from the split database sizes %s' % (nz, sizes), {'table': sm})
+                            add(c, 'C18-summary-exclusive-row' if (excl and nz2 == sizes) else None, 'C18: summary totals %s differ from the split database sizes %s' % (nz, sizes), {'table': sm})
         elif c['kind'] == 'merge':
             a = {}
             for h, s in r['merged']:
@@ -697,3 +764,23 @@ def replay(ctx, obj):
     c = obj.get('case') or obj.get('example')
     viol, st = evaluate(ctx, [c])
     return dict(violations=viol)
+
+
+def search_failing_input(ctx, broken):
+    """An obligation of Props/C18.v no longer checks (a table or code shape read from the source differs from the
+    hand-written reference): look for a concrete failing input -- corpus first, then the streams that reach the
+    code shapes the obligations pin (wildcard keys with entries carrying every known source, variant ids named
+    by two GVF files, merged near-duplicate entries)."""
+    rng = ctx.rng
+    cases = load_corpus()
+    worlds = [gen_world(rng) for _ in range(6)]
+    for i in range(240):
+        cases.append(gen_case(rng, rng.choice(worlds), ['wild_all', 'wild', 'main'][i % 3]))
+    cases, _ = drop_explosions(cases)
+    viol, st = evaluate(ctx, cases)
+    for v in viol:
+        if not v.get('finding') and not v.get('no_input'):
+            obj = dict(v['replay_obj'])
+            obj['what'] = v['what']
+            return obj
+    return None
